@@ -4,6 +4,8 @@
 package kmsfake
 
 import (
+	"context"
+
 	"google.golang.org/protobuf/proto"
 
 	"github.com/tink-crypto/tink-go/v2/core/registry"
@@ -12,6 +14,7 @@ import (
 	kmsepb "github.com/tink-crypto/tink-go/v2/proto/kms_envelope_go_proto"
 	tinkpb "github.com/tink-crypto/tink-go/v2/proto/tink_go_proto"
 	"github.com/tink-crypto/tink-go/v2/testing/fakekms"
+	"github.com/tink-crypto/tink-go/v2/tink"
 	"github.com/tink-crypto/tink-go/v2/verifsim/simrng"
 )
 
@@ -48,4 +51,34 @@ func Key(dek *tinkpb.KeyTemplate, id uint32, pfx tinkpb.OutputPrefixType) *tinkp
 func Handle(dek *tinkpb.KeyTemplate, id uint32, pfx tinkpb.OutputPrefixType, opts ...keyset.Option) (*keyset.Handle, error) {
 	ks := &tinkpb.Keyset{PrimaryKeyId: id, Key: []*tinkpb.Keyset_Key{Key(dek, id, pfx)}}
 	return insecurecleartextkeyset.Read(&keyset.MemReaderWriter{Keyset: ks}, opts...)
+}
+
+// KEKWithContext returns the fake KMS's key-encryption AEAD for the fixed KEK URI behind the context-aware interface
+// (a cancelled context fails the call, as a remote KMS client would).
+func KEKWithContext() (tink.AEADWithContext, error) {
+	c, err := registry.GetKMSClient(kekURI)
+	if err != nil {
+		return nil, err
+	}
+	a, err := c.GetAEAD(kekURI)
+	if err != nil {
+		return nil, err
+	}
+	return &ctxKEK{a: a}, nil
+}
+
+type ctxKEK struct{ a tink.AEAD }
+
+func (k *ctxKEK) EncryptWithContext(ctx context.Context, plaintext, associatedData []byte) ([]byte, error) {
+	if err := ctx.Err(); err != nil {
+		return nil, err
+	}
+	return k.a.Encrypt(plaintext, associatedData)
+}
+
+func (k *ctxKEK) DecryptWithContext(ctx context.Context, ciphertext, associatedData []byte) ([]byte, error) {
+	if err := ctx.Err(); err != nil {
+		return nil, err
+	}
+	return k.a.Decrypt(ciphertext, associatedData)
 }
